@@ -10,6 +10,12 @@ for f in rand alg select; do
   cp "$GR/src/runtime/$f.go" "$O/$f.go"
   patch -s -p0 "$O/$f.go" < "$V/notes/runtime_$f.go.patch" || { echo "overlay: patch for $f.go does not apply"; exit 2; }
 done
+# the current goroutine's id without formatting a stack trace (simrt asks at every scheduling point)
+cat >> "$O/rand.go" <<'EOT'
+
+// VerifGoid returns the id of the calling goroutine.
+func VerifGoid() uint64 { return getg().goid }
+EOT
 cat > "$O/overlay.json" <<EOT
 {"Replace": {"$GR/src/runtime/alg.go":"$O/alg.go","$GR/src/runtime/rand.go":"$O/rand.go","$GR/src/runtime/select.go":"$O/select.go"}}
 EOT
